@@ -14,15 +14,16 @@
 package main
 
 import (
-	"math"
 	"context"
 	"encoding/json"
 	"fmt"
+	"math"
 	"os"
 	"path/filepath"
 	"strconv"
 
 	"go.mongodb.org/mongo-driver/bson"
+	"go.mongodb.org/mongo-driver/bson/primitive"
 	"go.mongodb.org/mongo-driver/mongo"
 	"go.mongodb.org/mongo-driver/mongo/options"
 
@@ -80,7 +81,10 @@ func sameBytes(a, b interface{}) bool {
 
 var sortVals = []interface{}{int32(1), int32(2), int64(2), float64(2), int32(3), float64(1.5), "a", "b", nil, true,
 	bson.A{int32(1), int32(3)}, bson.A{int32(2)}, bson.A{int32(3), int32(0)}, bson.A{"a", int32(2)}, bson.A{int64(2), float64(2)},
-	math.NaN(), math.NaN(), math.Inf(1), math.Inf(-1), math.Copysign(0, -1), int32(0)} // NaN sorts below every number and ties with itself
+	math.NaN(), math.NaN(), math.Inf(1), math.Inf(-1), math.Copysign(0, -1), int32(0), // NaN sorts below every number and ties with itself
+	// one or two values of the remaining type classes (the order between classes, dates against timestamps included)
+	primitive.DateTime(1), primitive.DateTime(5), primitive.Timestamp{T: 1, I: 1}, primitive.Timestamp{T: 0, I: 9}, false,
+	primitive.Binary{Data: []byte{1}}, primitive.ObjectID{1}, bson.D{{Key: "q", Value: int32(1)}}, primitive.Regex{Pattern: "a"}}
 
 func sortDoc(g *gen.G, id int) bson.D {
 	d := bson.D{{Key: "_id", Value: int32(id)}}
